@@ -36,7 +36,7 @@ theorem Entry.complete_stored {en : Entry} (h : en.complete = true) (k : Nat)
     (en.traced.contains k = true ∧ (en.constNeeds = true ∨ en.disjuncts.contains k = true)) ∨
       en.isStaticAt k = true := by
   simp only [Entry.complete, Bool.and_eq_true, List.all_eq_true] at h
-  have := h.1.1.2 k hk
+  have := h.1.1.1.2 k hk
   simp only [Bool.and_eq_true, Bool.or_eq_true, decide_eq_true_eq] at this
   exact this.2
 
@@ -44,7 +44,7 @@ theorem Entry.complete_guard {en : Entry} (h : en.complete = true) (g : List Nat
     (hg : g ∈ en.guards) (k : Nat) (hk : k ∈ en.held) :
     g.contains k = true ∨ en.isStaticAt k = true := by
   simp only [Entry.complete, Bool.and_eq_true, List.all_eq_true] at h
-  have := h.1.2 g hg k hk
+  have := h.1.1.2 g hg k hk
   simpa only [Bool.or_eq_true] using this
 
 /-- The induction: for every type shape, tracing through the impl reports exactly the contained
@@ -202,6 +202,29 @@ theorem no_hidden_brand (t : Table) (hu : t.untracedStatic = true) (e : Nat) (en
   have hs := Entry.untraced_held (Table.untraced_unpack hu he) (pos j) hheld hnt
   have hst := hbounds (pos j) hs hlt
   exact ⟨hst, static_no_ptrs t _ _ hty hst⟩
+
+/-! ## Tables extended by further impls (client instantiations of the exported macros) -/
+
+/-- The table with further entries appended (the existing entry numbers keep their meaning). -/
+def Table.extend (t : Table) (es : List Entry) : Table := { t with entries := t.entries ++ es }
+
+theorem Table.extend_complete (t : Table) (es : List Entry) (ht : t.complete = true)
+    (hes : ∀ e, e ∈ es → e.complete = true) : (t.extend es).complete = true := by
+  simp only [Table.complete, Table.extend, Bool.and_eq_true, List.all_eq_true, List.mem_append] at ht ⊢
+  obtain ⟨⟨⟨⟨⟨h0, h1⟩, h2⟩, h3⟩, h4⟩, h5⟩ := ht
+  refine ⟨⟨⟨⟨⟨h0, ?_⟩, h2⟩, h3⟩, h4⟩, h5⟩
+  intro e he
+  rcases he with he | he
+  · exact h1 e he
+  · exact hes e he
+
+theorem Table.extend_untracedStatic (t : Table) (es : List Entry) (ht : t.untracedStatic = true)
+    (hes : ∀ e, e ∈ es → e.untracedStatic = true) : (t.extend es).untracedStatic = true := by
+  simp only [Table.untracedStatic, Table.extend, List.all_eq_true, List.mem_append] at ht ⊢
+  intro e he
+  rcases he with he | he
+  · exact ht e he
+  · exact hes e he
 
 /-! Small tables / types / values used by the non-vacuity examples of `Props/C16`. -/
 namespace Example
